@@ -345,4 +345,18 @@ CLAIMS = {
                 "related arguments although the subtype checks are invariant; subtype_distance(T, T) is not 0 for Any, for types "
                 "containing Any and for unions without an Instance member.",
     },
+    "C26": {
+        "category": "other",
+        "text": "Bounded stand-in (not a proof): rank-selection and random-selection clusters built by generate_test_cluster from "
+                "one generated module (class hierarchy, container/union return types, un-annotated factories) are queried for 25 "
+                "requested types before and after ordered triples of update_return_type observations and after an "
+                "add_subclass_edge: every offered generator must return a type that is_maybe_subtype of the request, both "
+                "providers must offer the same generators, cached provider answers must equal those of a provider rebuilt from "
+                "the final generator table, and cached is_subclass answers must equal nx.has_path on the final graph.",
+        "technique": "bounded contract check (lru_cache-d methods over a networkx graph and a mutable generator table; the "
+                     "ghost-validity treatment of lru_cache planned in DESIGN.md is not built)",
+        "note": "no unbounded claim. Known findings (recorded with witness classes): the rank provider offers generators whose "
+                "generic arguments are only covariantly related (list[Circle] for list[Shape]); the providers differ for such "
+                "requests, for unions sharing only None, and for primitive requests (rank provider returns nothing by design).",
+    },
 }
